@@ -1,5 +1,24 @@
 pub mod common;
 pub mod c01;
+pub mod c02;
+pub mod c03;
+pub mod c04;
+pub mod c05;
+pub mod c06;
+pub mod c07;
+pub mod c08;
+pub mod c09;
+pub mod c10;
+pub mod c11;
+pub mod c12;
+pub mod c13;
+pub mod c14;
+pub mod c15;
+pub mod c16;
+pub mod c17;
+pub mod c18;
+pub mod c19;
+pub mod c20;
 
 use crate::run::{Ctx, Report};
 pub type MonFn = fn(&Ctx) -> Report;
@@ -7,5 +26,24 @@ pub type MonFn = fn(&Ctx) -> Report;
 pub fn registry() -> Vec<(&'static str, MonFn)> {
     vec![
         ("C01", c01::run as MonFn),
+        ("C02", c02::run as MonFn),
+        ("C03", c03::run as MonFn),
+        ("C04", c04::run as MonFn),
+        ("C05", c05::run as MonFn),
+        ("C06", c06::run as MonFn),
+        ("C07", c07::run as MonFn),
+        ("C08", c08::run as MonFn),
+        ("C09", c09::run as MonFn),
+        ("C10", c10::run as MonFn),
+        ("C11", c11::run as MonFn),
+        ("C12", c12::run as MonFn),
+        ("C13", c13::run as MonFn),
+        ("C14", c14::run as MonFn),
+        ("C15", c15::run as MonFn),
+        ("C16", c16::run as MonFn),
+        ("C17", c17::run as MonFn),
+        ("C18", c18::run as MonFn),
+        ("C19", c19::run as MonFn),
+        ("C20", c20::run as MonFn),
     ]
 }
